@@ -184,3 +184,9 @@ pub open spec fn deleted(fin: ParsedPacket, mid: ParsedPacket, off: usize, next:
                && fin.edns_version == mid.edns_version && fin.ext_flags == mid.ext_flags })
     && fin.maybe_compressed == mid.maybe_compressed && fin.max_payload == mid.max_payload && fin.cached.is_none()
 }
+
+// the reader-level invariant does not involve the "may contain pointers" flag
+pub proof fn lemma_wf_flag(a: ParsedPacket, b: ParsedPacket)
+    requires a.wf(), b.packet == a.packet, b.same_meta_nocache(&ParsedPacket { maybe_compressed: b.maybe_compressed, ..a }), b.cached == a.cached
+    ensures b.wf()
+{ }
